@@ -549,10 +549,13 @@ class BaseNetQASMConnection(abc.ABC):
 
         subroutine.instantiate(self.app_id)
 
+        # The compiled operations are no longer pending. Reset before sending (as
+        # `compile()` does): operations that a completion callback adds while the
+        # subroutine is being committed belong to the next subroutine.
+        self._builder._reset()
+
         # Commit the subroutine to the quantum device
         self.commit_subroutine(subroutine, block, callback)
-
-        self._builder._reset()
 
     def commit_subroutine(
         self,
